@@ -253,6 +253,9 @@ func runC02(c *eng.Ctx) {
 		{&core.Spec{Regs: []core.Reg{core.MkReg("Leaf_K0_a", godi.Scoped, core.WithAs("IK0", "IA")), rmReg("IA", ""), core.MkReg("Leaf_K1_a", godi.Scoped, core.WithAs("IA"))}}, core.Op{Kind: core.OpGet, Type: "IA"}},
 		{&core.Spec{Regs: []core.Reg{core.MkReg("MR_K0K1", godi.Scoped), rmReg("K1", ""), core.MkReg("Leaf_K1_b", godi.Scoped)}}, core.Op{Kind: core.OpGet, Type: "K1"}},
 		{&core.Spec{Regs: []core.Reg{core.MkReg("OutN_K0K1", godi.Scoped), rmReg("K0", "k"), core.MkReg("Leaf_K0_b", godi.Scoped, core.WithName("k"))}}, core.Op{Kind: core.OpGet, Type: "K0", Key: "k"}},
+		// group members that are aliases of one instance: the group of the SECOND alias is resolved repeatedly
+		{&core.Spec{Regs: []core.Reg{core.MkReg("Leaf_K0_a", godi.Scoped, core.WithAs("IK0", "IA"), core.WithGroup("g")), core.MkReg("Leaf_K1_a", godi.Scoped, core.WithAs("IA", "IK1"), core.WithGroup("g"))}}, core.Op{Kind: core.OpGetGroup, Type: "IA", Group: "g"}},
+		{&core.Spec{Regs: []core.Reg{core.MkReg("MR_K1K1", godi.Scoped, core.WithGroup("h")), core.MkReg("InU_0_2_Group", godi.Scoped)}}, core.Op{Kind: core.OpGetGroup, Type: "K1", Group: "h"}},
 		{&core.Spec{Regs: []core.Reg{core.MkReg("Leaf_S3_a", godi.Scoped, core.WithAs("IS3", "IB"), core.WithName("k")), rmReg("IB", "k"), core.MkReg("Leaf_S2_a", godi.Scoped, core.WithAs("IB"), core.WithName("k"))}}, core.Op{Kind: core.OpGet, Type: "IB", Key: "k"}},
 	}
 	for di, d := range directed {
